@@ -36,7 +36,7 @@ class Unit:
     def __init__(self, name, driver, body=None, strategy=None, machine=None, cases=None,
                  quick=100, thorough=1000, render=None, known=None, replay_history=None,
                  steps=None, shards_quick=None, shards_thorough=None, exhaustive=False,
-                 quick_enum=True):
+                 quick_enum=True, shrink_quick=True):
         assert driver in ("given", "machine", "enum")
         self.name = name
         self.driver = driver
@@ -54,6 +54,7 @@ class Unit:
         self.shards_thorough = shards_thorough
         self.exhaustive = exhaustive
         self.quick_enum = quick_enum      # enum units: run in the quick tier as well?
+        self.shrink_quick = shrink_quick  # expensive units: report the first failing case unshrunk in the quick tier
 
 
 def default_render(case):
